@@ -111,7 +111,7 @@ def run_case(case):
                     break
                 want = rsess.predict(call, built)
                 why = rsess.compare(call, got, want, built)
-                if why is None and op in ("list", "archiveinfo"):
+                if why is None and op in ("list", "archiveinfo", "test"):
                     # fields the model has no opinion on: same call on a freshly opened session over an identical image
                     fresh = rsess.Session(built, case["open"], case["read"], mirror_dir=os.path.join(scratch, "fresh") if _mk(os.path.join(scratch, "fresh")) else None)
                     try:
